@@ -468,6 +468,36 @@ class Obj0(Obj):
     def __bool__(self):
         return False
 hp = functools.partial(h2, v=2)
+class PB(object):
+    def __init__(self, v):
+        self.v = v
+    def mm(self, k):
+        tr('PB.mm', self.v, k)
+        return self.v + k
+class PC(PB):
+    """zero-argument super() inside if / for / while bodies of a method (converted when reached recursively)"""
+    def mm(self, k):
+        r = 0
+        if k > 0:
+            r = super().mm(k) + 1
+        for q in range(k % 2):
+            r += super().mm(q)
+        while r > 50:
+            r = super().mm(-1)
+        return r
+class EqL(object):
+    """equality with an observable effect and a non-bool result"""
+    def __init__(self, t):
+        self.t = t
+    def __eq__(self, other):
+        tr('eq', self.t)
+        return 0
+    def __ne__(self, other):
+        tr('ne', self.t)
+        return 'ne'
+    __hash__ = None
+NANV = float('nan')
+EQ1 = EqL(1)
 '''
 
 
@@ -516,6 +546,13 @@ class _Gen(object):
                 # with list, tuple and iterator operands, on plain, partial and bound-method callees
                 self.features.add('star_args'); self.uses_obj = True
                 e = self.iexpr(depth - 1)
+                if r.random() < 0.15:
+                    # the same keyword arriving twice at run time must raise TypeError (never 'last one wins')
+                    self.features.add('duplicate_keyword')
+                    return r.choice(["h2(u=%s, **{'u': 1})", "h2(%s, v=1, **{'v': 2})", "h2(**{'u': %s}, **{'u': 2})"]) % e
+                if r.random() < 0.15:
+                    self.features.add('super_in_block')
+                    return 'PC(%s).mm(%s)' % (e, r.choice(['a', 'b', '1', '2', '0']))
                 return r.choice(['h(*[%s])', 'hp(*[%s])', 'h2(*[%s, 2])', 'h2(*(%s,), v=2)', 'hp(*iter([%s]))', 'h2(%s, *[1])',
                                  "h2(%s, **{'v': 2})", 'o.m(*[%s])', 'max(*[%s, 1])', 'hp(*(%s,))']) % e
             return r.choice(['h(%s)', 'h2(%s)', 'h2(%s, v=2)', 'hp(%s)']) % self.iexpr(depth - 1)
@@ -566,8 +603,13 @@ class _Gen(object):
                     parts += [r.choice(['<', '<=', '==', '!=', '>', '>=']), self.iexpr(0)]
                 return ' '.join(parts)
             return '%s < %s <= %s' % (self.iexpr(0), self.iexpr(depth - 1), self.iexpr(0))
-        if c < 0.93:
+        if c < 0.91:
             return 'd()'
+        if c < 0.95:
+            # == / != on one and the same object whose equality is not trivially True (NaN; an __eq__ with an
+            # observable effect and a non-bool result): no identity shortcut may be taken
+            self.features.add('self_equality')
+            return r.choice(['NANV == NANV', 'NANV != NANV', 'bool(EQ1 == EQ1)', '[NANV][0] == NANV'])
         return 'tr(%d, %s) > 0' % (self.slot(), self.iexpr(depth - 1))
 
     # ---- statements
@@ -1061,6 +1103,35 @@ BINDING_SCENARIOS = [
     ('closure_two_level_read', 'def g(p):\n    def gi():\n        return v + [p]\n    return gi()\nr = g(3)'),
     ('closure_global_declared_in_block', 'def g():\n    if True:\n        global G\n        return [G]\nr = g() + v'),
 ]
+
+
+ESCAPE_SCENARIOS = [
+    # (name, statements BEFORE the conditional re-assignment of v (define a closure over v and let it escape under
+    #  another handle, never mentioning its name again), statements AFTER it (call through that handle))
+    ('closure_escapes_in_dict', 'def g():\n    return v\ndct = {1: g}', 'r = dct[1]()'),
+    ('closure_escapes_in_list', 'def g():\n    return v\nfs = [g]', 'r = fs[0]()'),
+    ('closure_escapes_in_partial', 'def g(p):\n    return v + [p]\nhh = functools.partial(g, 3)', 'r = hh()'),
+    ('closure_escapes_as_attribute', 'def g():\n    return v\no = Obj(0)\no.cb = g', 'r = o.cb()'),
+    ('closure_escapes_via_alias_chain', 'def g():\n    return v\nh1 = g\nh3 = h1', 'r = h3()'),
+    ('closure_escapes_as_default', 'def g():\n    return v\ndef call(k=g):\n    return k()', 'r = call()'),
+]
+
+
+def escape_scenario_programs():
+    """A closure over `v` escapes under another handle; `v` is then re-assigned (write-only) inside a branch / a loop;
+    the closure is finally called through the handle: the re-assignment must be seen."""
+    for name, pre, post in ESCAPE_SCENARIOS:
+        for wrap in ('if', 'for', 'while'):
+            L = ['def f(a, b, c):', '    v = [a, b]'] + ['    ' + l for l in pre.split('\n')]
+            if wrap == 'if':
+                L += ['    if d():', '        v = [tr(1, c), 4]']
+            elif wrap == 'for':
+                L += ['    for i in n():', '        v = [tr(1, i), 5]']
+            else:
+                L += ['    while d():', '        v = [tr(1, c), 6]']
+            L += ['    ' + l for l in post.split('\n')] + ['    return tr(0, r)']
+            yield Program(RANDOM_PRELUDE + '\n'.join(L) + '\n', [(1, 2, 3), (0, -1, 2)], {'binding', 'escape', name, wrap}, 'binding',
+                          decisions=[[0, 0, 0], [1, 0, 0], [2, 1, 0]], meta={'scenario': name})
 
 
 def binding_scenario_programs():
